@@ -144,6 +144,40 @@ def rule_id(repo):
     res.inst({'function': f.fq, 'zero_then_w_one': ok}, f.fq)
     if not ok:
         res.add(Finding('C03.ID', f, 'identity_ must zero the tensor and then set the w slot (last entry) to one', construct='identity_'))
+    # the constructors document lsize as "a variable number of arguments or a collection like a list or tuple": the *size they receive is
+    # normalised by to_tuple before it is used as a shape (randn does it; identity must too, or identity_SE3((2, 3)) raises in repeat())
+    for G in GROUPS:
+        f = repo.func(LT, G + 'Type.identity')
+        va = f.node.args.vararg.arg if f.node.args.vararg else None
+        if va is None:
+            continue
+        raw = []
+        for n in ast.walk(f.node):
+            if isinstance(n, ast.BinOp) and isinstance(n.op, ast.Add) and any(isinstance(x, ast.Name) and x.id == va for x in (n.left, n.right)):
+                raw.append(n)
+        norm = any(isinstance(c, ast.Call) and (dotted(c.func) or '').split('.')[-1] == 'to_tuple' and c.args and isinstance(c.args[0], ast.Name) and c.args[0].id == va
+                   for c in ast.walk(f.node))
+        rebound = any(isinstance(a, ast.Assign) and any(isinstance(t, ast.Name) and t.id == va for t in a.targets) and
+                      any(isinstance(c, ast.Call) and (dotted(c.func) or '').split('.')[-1] == 'to_tuple' for c in ast.walk(a.value)) for a in ast.walk(f.node))
+        ok = not raw or rebound or (norm and not any(isinstance(x, ast.Name) and x.id == va for r_ in raw for x in (r_.left, r_.right)))
+        res.inst({'function': f.fq, 'size used as a shape': [src(r_)[:30] for r_ in raw], 'normalised by to_tuple': ok}, (f.fq, 'size'))
+        if not ok:
+            res.add(Finding('C03.ID', f, '%sType.identity uses `*%s` as a shape (`%s`) without to_tuple: identity_%s((2, 3)) / identity_%s([2, 3]) - the documented '
+                            'collection form - raises TypeError in repeat(), while randn_%s accepts it' % (G, va, src(raw[0])[:30], G, G, G), node=raw[0],
+                            construct='size not normalised|' + G))
+    # the in-place identity is documented for every LieTensor ("the translation part, if there is, is set to zeros"): each group type
+    # resolves identity_ along its MRO to an implementation that does something other than raise
+    for G in GROUPS:
+        ci = repo.cls(LT, G + 'Type')
+        m = repo.find_method(ci, 'identity_')
+        works = m is not None and not (len([st for st in m.node.body if not (isinstance(st, ast.Expr) and isinstance(st.value, ast.Constant))]) == 1
+                                       and isinstance(m.node.body[-1], ast.Raise))
+        res.inst({'class': ci.fq, 'identity_ resolves to': m.fq if m else None, 'implemented': works}, (ci.fq, 'identity_'))
+        if not works:
+            res.add(Finding('C03.ID', m if m is not None else (ci.module.relpath, ci.node.lineno, ci.fq),
+                            '%s.identity_ resolves to %s, which only raises: X.identity_() of a %s element raises NotImplementedError although the in-place '
+                            'identity is documented for elements with a translation part as well' % (G + 'Type', m.fq if m else 'nothing', G),
+                            construct='identity_ missing|' + G))
     return res
 
 
